@@ -88,11 +88,15 @@ def build(cfg, bins):
         sys.exit(2)
 
 
-def run_digest(cfg, first, count, full=False, sd=None):
+def run_digest(cfg, first, count, full=False, sd=None, timeout=3600):
     cmd = [bin_path(cfg, "c19w"), str(seed if sd is None else sd), str(first), str(count)]
     if full:
         cmd.append("--full")
-    p = subprocess.run(cmd, capture_output=True, text=True, timeout=3600)
+    try:
+        p = subprocess.run(cmd, capture_output=True, text=True, timeout=timeout)
+    except subprocess.TimeoutExpired as ex:
+        out = ex.stdout.decode(errors="replace") if isinstance(ex.stdout, bytes) else (ex.stdout or "")
+        return -999, out, "TIMEOUT after %ds" % timeout
     return p.returncode, p.stdout, p.stderr
 
 
@@ -190,11 +194,26 @@ samples = []
 trivial = 0
 
 
+stuck = {}   # cfg -> number of chunks that did not finish
+
+
 def do_chunk(fc):
     first, count = fc
     outs = {}
-    for cfg in configs:
-        rc, out, err = run_digest(cfg, first, count)
+    t_ref = None
+    for cfg in configs:     # the reference configuration comes first
+        if stuck.get(cfg, 0) >= 2:
+            outs[cfg] = (-998, "", "skipped: this configuration already failed to finish two chunks")
+            continue
+        t1 = time.time()
+        # generous wall-clock guard relative to the reference build of the same chunk; its firing is
+        # reported as inconclusive (a logical-step verdict on termination is the business of C16)
+        limit = 3600 if t_ref is None else max(180, int(200 * t_ref))
+        rc, out, err = run_digest(cfg, first, count, timeout=limit)
+        if cfg == REF:
+            t_ref = time.time() - t1
+        if rc == -999:
+            stuck[cfg] = stuck.get(cfg, 0) + 1
         outs[cfg] = (rc, out, err)
     return first, count, outs
 
@@ -204,10 +223,20 @@ with cf.ThreadPoolExecutor(max_workers=max(1, 16 // len(configs))) as ex:
         parsed = {}
         for cfg, (rc, out, err) in outs.items():
             lines = out.splitlines()
-            if rc != 0 or not lines or not lines[0].startswith("CONFIG"):
-                # a dead worker is a process death inside the library (abort / stack overflow / OOM)
-                inconclusive.append("c19w died in %s on cases %d..%d (rc=%s): %s" % (cfg, first, first + count, rc, err[-300:]))
+            if rc == -998:
                 continue
+            if rc != 0 or not lines or not lines[0].startswith("CONFIG"):
+                # a dead worker is a process death inside the library (abort / stack overflow / OOM); a worker
+                # that does not finish within 200x the reference build's time is a suspected non-termination
+                done = sum(1 for l in lines if l and l[0].isdigit())
+                inconclusive.append("c19w %s in %s on cases %d..%d after %d cases: %s" % ("did not finish" if rc == -999 else "died (rc=%s)" % rc, cfg, first, first + count, done, err[-300:]))
+                per_config[cfg]["unfinished_chunks"] = per_config[cfg].get("unfinished_chunks", 0) + 1
+                if rc != -999:
+                    continue
+                # compare what the unfinished worker printed before it got stuck
+                lines = [l for l in lines if l.startswith("CONFIG") or l.startswith("INPROC") or len(l.split(" ")) == 4]
+                if not lines or not lines[0].startswith("CONFIG"):
+                    continue
             observed[cfg] = lines[0]
             dig = {}
             for l in lines[1:]:
@@ -218,7 +247,7 @@ with cf.ThreadPoolExecutor(max_workers=max(1, 16 // len(configs))) as ex:
                     continue
                 f = l.split(" ")
                 dig[int(f[0])] = (f[1], f[2], f[3])
-            if len(dig) != count:
+            if len(dig) != count and rc != -999:
                 inconclusive.append("c19w in %s printed %d of %d cases (%d..)" % (cfg, len(dig), count, first))
             parsed[cfg] = dig
         if REF not in parsed:
@@ -257,6 +286,11 @@ samples = [l[:300] for l in full_out.splitlines()[1:]][:16]
 mon_evals = 0
 for cfg in configs:
     if cfg == REF:
+        continue
+    if per_config[cfg]["digest_mismatches"] or per_config[cfg].get("unfinished_chunks") or per_config[cfg]["inproc_violations"]:
+        # the configuration already disagrees with the reference build: the verdict is settled, and the
+        # oracle monitors could take very long on a build that miscomputes or does not terminate
+        per_config[cfg]["monitors_skipped"] = "configuration already shows violations in the digest phase"
         continue
     root = scratch_root(cfg)
     for mon, cases in sorted(monitors.items()):
